@@ -1147,7 +1147,13 @@ func (sys *System) ClearLocation(ctx *Context, location string) error {
 	} else {
 		Log(DEBUG, ctx, "System.ClearLocation", "location", location)
 		Metric(ctx, "System.ClearLocation", "location", location)
+		// Clear also removes the marker that CreateLocation wrote;
+		// a created location stays created.
+		created, _ := locationCreated(ctx, loc)
 		err = loc.Clear(ctx)
+		if err == nil && created {
+			err = markLocationCreated(ctx, loc)
+		}
 		if err != nil {
 			Log(ERROR, ctx, "System.ClearLocation", "location", location, "error", err, "when", "clear")
 		} else {
